@@ -21,6 +21,7 @@ import Abnf.EngineC
 import Abnf.DriverExt
 import Abnf.Norm
 import Abnf.DriverCache
+import Abnf.DerivCheck
 import Abnf.Ref
 import Std.Data.HashMap
 open Abnf
@@ -59,6 +60,26 @@ where
       | some (es, rest) => some (e :: es, rest)
       | none => none
     | none => none
+
+/-- a parse tree in prefix form: `L <offset> <length> <n> cp*n` | `N <name> <k> tree*k` -/
+partial def parseTree : List String → Option (Tree × List String)
+  | "L" :: o :: l :: n :: rest =>
+    let k := n.toNat!
+    some (.leaf ((rest.take k).map String.toNat!) o.toNat! l.toNat!, rest.drop k)
+  | "N" :: name :: k :: rest =>
+    let rec kids : Nat → List String → Option (List Tree × List String)
+      | 0, rest => some ([], rest)
+      | n + 1, rest =>
+        match parseTree rest with
+        | some (t, rest) =>
+          match kids n rest with
+          | some (ts, rest) => some (t :: ts, rest)
+          | none => none
+        | none => none
+    match kids k.toNat! rest with
+    | some (cs, rest) => some (.node name cs, rest)
+    | none => none
+  | _ => none
 
 def parseRule (toks : List String) : Option RuleInfo :=
   match toks with
@@ -136,6 +157,13 @@ def handle (G : Grammar) (toks : List String) (st : HM) (x : Abnf.Ext.XState) : 
   | "compile" :: r :: cps =>
     (Abnf.CT.showCRes (Abnf.CT.createWith (fun src => pickWith id (lparseC hmOps G fuel src (.ref r.toNat!) 0 {}).1) (nats cps)), st, x)
   | "compile0" :: r :: cps => (Abnf.CT.showCRes (Abnf.CT.create G r.toNat! fuel (nats cps)), st, x)
+  -- the verified derivation checker (Abnf/DerivCheck.lean) on a tree built by the REAL code:
+  --   chktree <r> <i> <j> <n> cp*n <tree>
+  | "chktree" :: r :: i :: j :: n :: rest =>
+    let k := n.toNat!
+    match parseTree (rest.drop k) with
+    | some (t, []) => (if checkTree G (nats (rest.take k)) fuel r.toNat! i.toNat! t j.toNat! then "deriv-ok" else "deriv-bad", st, x)
+    | _ => ("bad-tree", st, x)
   -- cache-free engine (the definition the theorems speak about)
   | "lparse0" :: r :: i :: cps => (showRes (lparse G fuel (nats cps) (.ref r.toNat!) i.toNat!) true, st, x)
   | "ends0" :: r :: i :: cps => (showRes (lparse G fuel (nats cps) (.ref r.toNat!) i.toNat!) false, st, x)
